@@ -413,9 +413,26 @@ void Broker::handle(const ConnPtr& c, BConn& b, const ref::Decoded& d, int cpkt)
             if (current_ == c) current_.reset();
             w_.broker_close(c, false);
             break;
-        case ref::AUTH:
-            w_.log(Ev::note, c->id, cpkt, 0, "AUTH after CONNACK (re-authentication) ignored by this broker model");
+        case ref::AUTH: {
+            // re-authentication [MQTT 4.12.1]: AUTH 0x19 starts it, the Server answers AUTH 0x18 (challenge) `auth_rounds`
+            // times and then AUTH 0x00; a wrong method is a protocol error (DISCONNECT 0x8C, close)
+            std::string method; for (auto& x : p.props) if (x.id == 0x15) method = x.s1;
+            if (auth_method.empty() || method != auth_method || (p.rc != 0x19 && p.rc != 0x18)) {
+                w_.log(Ev::note, c->id, cpkt, 0, "protocol: unexpected AUTH after CONNACK: " + p.str());
+                ref::Packet d; d.type = ref::DISCONNECT; d.rc = 0x8C; send_packet(c, d, BKind::normal, cpkt);
+                w_.broker_close(c, false);
+                break;
+            }
+            if (p.rc == 0x19) b.reauth_round = 0;
+            int round = b.reauth_round++;
+            later(c, [this, c, cpkt, round] {
+                ref::Packet a; a.type = ref::AUTH; a.rc = round < auth_rounds ? 0x18 : 0x00;
+                a.props.push_back(pstr(0x15, auth_method));
+                if (a.rc == 0x18) a.props.push_back(pstr(0x16, "re-challenge-" + std::to_string(round)));
+                send_packet(c, a, BKind::normal, cpkt);
+            });
             break;
+        }
         default:
             w_.log(Ev::note, c->id, cpkt, 0, "protocol: client sent a server-only packet " + p.str());
             break;
